@@ -10,6 +10,18 @@ NOT_APPLICABLE = {
 
 # id -> (engine, level category, level text, level note, technique, design_ref)
 CHECKS = {
+    "C01": ("StepExec", "exploration",
+            "Seeded search over delivery schedules in which a network adversary adds forged copies of honest operations, each with exactly one of 17 mutation kinds (bit flips through the real CBOR decoder, body changes, every header field incl. extensions, signature strip / replace / re-sign, author-signed malformed headers), before or after the honest copy; every forged copy must be rejected with the store dump unchanged, and everything ever stored must be byte-identical to what an honest author signed.",
+            "Sequential ingest calls on real SQLite (and on MemStore for volume). The node-level import / sync entry points are covered by C04's node scenario. Trusted: ed25519/blake3, SQLite.",
+            "deterministic simulation with fault injection: network adversary tampering operations, store-dump oracle", "§4 C01"),
+    "C03": ("StepExec", "exploration",
+            "Seeded search over delivery orders (drop, duplicate, neighbour swap, long delay, shuffle, forged copies) checked delivery by delivery against LogModel (predicts inserted / exists / rejected) and by reading the affected log back: unique seqs, backlinks of unflagged entries, monotone height.",
+            "Sequential ingest calls (transaction interleavings are C10); authors never equivocate.",
+            "deterministic simulation: seeded delivery schedules against a reference log model", "§4 C03"),
+    "C05": ("StepExec", "exploration",
+            "As C03 with many prune points, the real LogPrune step always on and long-delay reordering so that older flagged / unflagged operations arrive after a newer prune point; invariant after every delivery: no entry below the highest accepted prune point.",
+            "Sequential ingest + prune as the node pipeline runs them (ingest then prune for accepted operations).",
+            "deterministic simulation: delayed delivery of old prune points, floor invariant", "§4 C05"),
     "C19": ("StepExec+DES", "exploration",
             "Seeded search over generated two-replica histories (prefix/pruned/unknown/out-of-scope logs) and schedules; both real sessions run to completion and the emitted OperationReceived events are compared with the exact set difference computed from the replicas' contents; heights compared after real ingest. Sampling: a clean batch is evidence, not proof.",
             "Trusted: SQLite/sqlx, tokio, the harness; DES modes use MemStore (differentially tested against SqliteStore by C08/C09). Authors never equivocate; transport reliable and ordered.",
